@@ -7,6 +7,7 @@ import (
 	"fmt"
 	"math/big"
 	"math/bits"
+	"sort"
 	"strings"
 )
 
@@ -209,6 +210,24 @@ func (c *TermCtx) ub(t *Term, d int) uint64 {
 		}
 	case OpLShr, OpUDiv:
 		return c.ub(t.args[0], d-1)
+	case OpMul:
+		a, b := c.ub(t.args[0], d-1), c.ub(t.args[1], d-1)
+		if hi, lo := bits.Mul64(a, b); hi == 0 && lo <= m {
+			return lo
+		}
+	case OpConcat:
+		lw := t.args[1].sort.W
+		if t.sort.W <= 64 {
+			a := c.ub(t.args[0], d-1)
+			return a<<uint(lw) | mask(lw)
+		}
+	case OpExtract:
+		if t.val&0xff == 0 {
+			a := c.ub(t.args[0], d-1)
+			if a < m {
+				return a
+			}
+		}
 	}
 	return m
 }
@@ -234,12 +253,11 @@ func (c *TermCtx) BinBV(op Op, a, b *Term) *Term {
 		if b.IsConst() && b.val == 0 {
 			return a
 		}
-		if a.IsConst() { // constants to the right
-			a, b = b, a
-		}
-		// (x + c1) + c2
-		if b.IsConst() && a.op == OpAdd && a.args[1].IsConst() {
-			return c.BinBV(OpAdd, a.args[0], c.Const(w, a.args[1].val+b.val))
+		// sums are kept flattened, sorted by term id, constant last (a + b and b + a coincide)
+		la, ka := c.sumLeaves(a)
+		lb, kb := c.sumLeaves(b)
+		if len(la)+len(lb) <= 4096 {
+			return c.mkSum(mergeLeaves(la, lb), (ka+kb)&m, w)
 		}
 	case OpSub:
 		if b.IsConst() && b.val == 0 {
@@ -251,9 +269,33 @@ func (c *TermCtx) BinBV(op Op, a, b *Term) *Term {
 		if b.IsConst() {
 			return c.BinBV(OpAdd, a, c.Const(w, -b.val))
 		}
+		{
+			// cancel common summands: (x + y) - x = y
+			la, ka := c.sumLeaves(a)
+			lb, kb := c.sumLeaves(b)
+			ra, rb := cancelLeaves(la, lb)
+			if len(ra) != len(la) || (len(rb) == 0) {
+				sa := c.mkSum(ra, (ka-kb)&m, w)
+				if len(rb) == 0 {
+					return sa
+				}
+				return c.mk(OpSub, a.sort, []*Term{sa, c.mkSum(rb, 0, w)}, 0, "")
+			}
+		}
 	case OpMul:
 		if a.IsConst() {
 			a, b = b, a
+		}
+		// distribute a constant factor over a (short) sum: (x + y) * k = x*k + y*k
+		if b.IsConst() && a.op == OpAdd && b.val != 0 && b.val != 1 {
+			la, ka := c.sumLeaves(a)
+			if len(la) <= 16 {
+				var acc *Term = c.Const(w, ka*b.val)
+				for _, l := range la {
+					acc = c.BinBV(OpAdd, acc, c.BinBV(OpMul, l, b))
+				}
+				return acc
+			}
 		}
 		if b.IsConst() {
 			if b.val == 0 {
@@ -261,6 +303,9 @@ func (c *TermCtx) BinBV(op Op, a, b *Term) *Term {
 			}
 			if b.val == 1 {
 				return a
+			}
+			if bits.OnesCount64(b.val) == 1 {
+				return c.BinBV(OpShl, a, c.Const(w, uint64(bits.TrailingZeros64(b.val))))
 			}
 		}
 	case OpUDiv:
@@ -360,6 +405,103 @@ func (c *TermCtx) BinBV(op Op, a, b *Term) *Term {
 		}
 	}
 	return c.mk(op, a.sort, []*Term{a, b}, 0, "")
+}
+
+// sumLeaves flattens a tree of additions into its non-constant summands (sorted by id) and a constant.
+func (c *TermCtx) sumLeaves(t *Term) ([]*Term, uint64) {
+	if t.IsConst() {
+		return nil, t.val
+	}
+	if t.op != OpAdd {
+		return []*Term{t}, 0
+	}
+	// sums built by mkSum are left-nested with sorted leaves and the constant as the last operand
+	var leaves []*Term
+	var k uint64
+	cur := t
+	for cur.op == OpAdd {
+		r := cur.args[1]
+		if r.IsConst() {
+			k += r.val
+		} else {
+			leaves = append(leaves, r)
+		}
+		cur = cur.args[0]
+	}
+	if cur.IsConst() {
+		k += cur.val
+	} else {
+		leaves = append(leaves, cur)
+	}
+	// leaves were collected from the right: reverse to ascending id order
+	for i, j := 0, len(leaves)-1; i < j; i, j = i+1, j-1 {
+		leaves[i], leaves[j] = leaves[j], leaves[i]
+	}
+	sorted := true
+	for i := 1; i < len(leaves); i++ {
+		if leaves[i-1].id > leaves[i].id {
+			sorted = false
+			break
+		}
+	}
+	if !sorted {
+		sort.Slice(leaves, func(i, j int) bool { return leaves[i].id < leaves[j].id })
+	}
+	return leaves, k & mask(t.sort.W)
+}
+
+func mergeLeaves(a, b []*Term) []*Term {
+	r := make([]*Term, 0, len(a)+len(b))
+	i, j := 0, 0
+	for i < len(a) && j < len(b) {
+		if a[i].id <= b[j].id {
+			r = append(r, a[i])
+			i++
+		} else {
+			r = append(r, b[j])
+			j++
+		}
+	}
+	r = append(r, a[i:]...)
+	r = append(r, b[j:]...)
+	return r
+}
+
+// cancelLeaves removes the common elements (with multiplicity) of two sorted leaf lists.
+func cancelLeaves(a, b []*Term) ([]*Term, []*Term) {
+	var ra, rb []*Term
+	i, j := 0, 0
+	for i < len(a) && j < len(b) {
+		switch {
+		case a[i] == b[j]:
+			i++
+			j++
+		case a[i].id < b[j].id:
+			ra = append(ra, a[i])
+			i++
+		default:
+			rb = append(rb, b[j])
+			j++
+		}
+	}
+	ra = append(ra, a[i:]...)
+	rb = append(rb, b[j:]...)
+	return ra, rb
+}
+
+func (c *TermCtx) mkSum(leaves []*Term, k uint64, w int) *Term {
+	k &= mask(w)
+	if len(leaves) == 0 {
+		return c.Const(w, k)
+	}
+	acc := leaves[0]
+	for _, l := range leaves[1:] {
+		acc = c.mk(OpAdd, acc.sort, []*Term{acc, l}, 0, "")
+	}
+	if k != 0 {
+		acc = c.mk(OpAdd, acc.sort, []*Term{acc, c.Const(w, k)}, 0, "")
+	}
+	return acc
 }
 
 func foldBV(op Op, w int, x, y uint64) (uint64, bool) {
@@ -520,6 +662,21 @@ func (c *TermCtx) ZExt(a *Term, n int) *Term {
 	if a.op == OpZExt {
 		return c.ZExt(a.args[0], n+int(a.val))
 	}
+	// widen sums and products that provably do not wrap: zext(x+y) = zext(x)+zext(y)
+	if (a.op == OpAdd || a.op == OpMul) && a.sort.W+n <= 64 {
+		x, y := c.ub(a.args[0], 40), c.ub(a.args[1], 40)
+		fits := false
+		if a.op == OpAdd {
+			s := x + y
+			fits = s >= x && s <= mask(a.sort.W)
+		} else {
+			hi, lo := bits.Mul64(x, y)
+			fits = hi == 0 && lo <= mask(a.sort.W)
+		}
+		if fits {
+			return c.BinBV(a.op, c.ZExt(a.args[0], n), c.ZExt(a.args[1], n))
+		}
+	}
 	return c.mk(OpZExt, BV(a.sort.W+n), []*Term{a}, uint64(n), "")
 }
 
@@ -532,6 +689,9 @@ func (c *TermCtx) SExt(a *Term, n int) *Term {
 	}
 	if a.op == OpZExt { // sign bit known zero
 		return c.ZExt(a.args[0], n+int(a.val))
+	}
+	if c.ub(a, 40) < uint64(1)<<uint(a.sort.W-1) { // sign bit provably zero
+		return c.ZExt(a, n)
 	}
 	return c.mk(OpSExt, BV(a.sort.W+n), []*Term{a}, uint64(n), "")
 }
@@ -632,6 +792,16 @@ func (c *TermCtx) Eq(a, b *Term) *Term {
 			if a.args[1].IsConst() {
 				return c.Eq(a.args[0], c.Const(a.sort.W, b.val^a.args[1].val))
 			}
+		}
+	}
+	if a.sort.K == KBV && (a.op == OpAdd || b.op == OpAdd) {
+		// cancel common summands on both sides: x + y == x + z  <=>  y == z
+		la, ka := c.sumLeaves(a)
+		lb, kb := c.sumLeaves(b)
+		ra, rb := cancelLeaves(la, lb)
+		if len(ra) != len(la) {
+			w := a.sort.W
+			return c.Eq(c.mkSum(ra, ka, w), c.mkSum(rb, kb, w))
 		}
 	}
 	if a.id > b.id && !b.IsConst() {
